@@ -257,6 +257,14 @@ func Check(env *core.Env, rep *core.Report) *core.Result {
 			_ = ioutil.WriteFile(filepath.Join(root, "b", "a"), []byte("x"), 0o644)
 			paths = []string{"a", "b", "b/a"}
 			inc = []string{"**/**/**/a"}
+		} else if i == 4 {
+			// literal patterns: one names a path BELOW a regular file (it cannot exist), one an existing file
+			_ = os.MkdirAll(filepath.Join(root, "b"), 0o755)
+			for _, f := range []string{"a", "b/a"} {
+				_ = ioutil.WriteFile(filepath.Join(root, f), []byte("x"), 0o644)
+			}
+			paths = []string{"a", "b", "b/a"}
+			inc = []string{"a/ab", "b/a"}
 		} else if i == 3 {
 			// adjacent doublestars in an EXCLUDE pattern: they exclude the top-level file too
 			_ = os.MkdirAll(filepath.Join(root, "b"), 0o755)
